@@ -290,6 +290,9 @@ func isStateful(t types.Type) bool {
 
 func (x *Exec) builtin(f *Frame, st *State, b *ssa.Builtin, info *CallInfo) []callCont {
 	switch b.Name() {
+	case "ssa:wrapnilchk":
+		// wrapper-method nil check of the receiver: the receiver itself (receivers here are never nil)
+		return single(st, info.Args[0])
 	case "len":
 		switch v := info.Args[0].(type) {
 		case *Term:
